@@ -25,7 +25,11 @@ def shards(tier):
         {"name": "mask.np.jit", "mode": "jit", "backend": "np", "fn": "masks", "n": 150 if q else 3000},
         {"name": "mask.torch", "mode": "jit", "backend": "torch", "fn": "masks", "n": 40 if q else 600},
         {"name": "rand.np.jit", "mode": "jit", "backend": "np", "fn": "rand", "n": 400 if q else 20000},
+        {"name": "forms.np.jit", "mode": "jit", "backend": "np", "fn": "rand", "n": 150 if q else 5000, "forms": 1},
+        {"name": "forms.mask.np.jit", "mode": "jit", "backend": "np", "fn": "masks", "n": 100 if q else 2000, "forms": 1},
         {"name": "rand.torch", "mode": "jit", "backend": "torch", "fn": "rand", "n": 100 if q else 3000},
+        {"name": "big.np.jit", "mode": "jit", "backend": "np", "fn": "big", "n": 1 if q else 25},
+        {"name": "big.torch", "mode": "jit", "backend": "torch", "fn": "big", "n": 1 if q else 6},
     ]
     nsh = 4 if q else 8
     per = 11520 // nsh
@@ -267,3 +271,29 @@ def run_rand(shard, rec, B):
                 if N <= 3:
                     V = O.unitary_from_map(mg, mp)
                     rec.check("img.state.dense", O.close(O.rho(lg, lp, lr), V @ O.rho(tg, tp, r) @ V.conj().T), [N, t, "dense"], True)
+
+
+def run_big(shard, rec, B):
+    """wide registers / long lists; maps built by the oracle as products of rotations; table oracle only."""
+    rng = gen.rng_for(rec)
+    Ns = [16, 31, 32, 33, 63, 64, 65, 70] if B.name == "np" else [16, 33, 65]
+    for t in range(shard["n"]):
+        for N in Ns:
+            mg, mp = O.random_map(rng, N, nrot=N + 5)
+            L = [8, gen.BIG_LS[int(rng.integers(len(gen.BIG_LS)))]][int(rng.integers(2))] if B.name == "np" else 8
+            gs = rng.integers(0, 2, (L, 2 * N))
+            gs[0] = gen.sparse_string(rng, N)
+            ps = rng.integers(0, 4, L)
+            check_map(rec, B, mg, mp, gs, ps, rng, unitary=False)
+            # masked application of a small map on high qubits of the wide register
+            n = int(rng.integers(1, 4))
+            qubits = sorted(rng.choice(np.arange(N // 2, N), size=n, replace=False).tolist())
+            sg, sp = O.random_map(rng, n)
+            eg_map, ep_map = O.map_embed(sg, sp, qubits, N)
+            eg, ep = O.map_image_list(eg_map, ep_map, gs, ps)
+            A = B.PauliList(gs.copy(), ps.copy())
+            case = {"N": N, "qubits": qubits, "small": [O.show(a, b) for a, b in zip(sg, sp)], "L": L}
+            ok, _ = rec.attempt("img.mask", case, lambda: A.transform_by(B.Map(sg.copy(), sp.copy()), mask=_lib_mask(B, qubits, N)))
+            if ok:
+                ag, ap = B.gsps(A)
+                rec.check("img.mask", np.array_equal(ag, eg) and np.array_equal(ap, ep), case, True)
